@@ -1,3 +1,1 @@
--- This module serves as the root of the `CgreenModel` library.
--- Import modules here that should be built as part of the library.
-import CgreenModel.Basic
+import CgreenModel.Model.Runner
